@@ -357,7 +357,28 @@ fn run_stage(ctx: &Ctx, st: &Stage, watchdog: Duration) -> (Report, Vec<StuckCas
             }
         }
         if any_stuck && all_rest_stuck {
-            // every unfinished worker sits in a case beyond the watchdog: give up on them
+            // every unfinished worker sits in a case beyond the watchdog. Before giving up on them, let
+            // each one accumulate the CPU time on which "spinning" is decided (on a machine shared with
+            // other work a thread may get a fraction of a core): wait on, up to five watchdog periods
+            let need = 0.5 * (watchdog.as_millis() as f64 / 1000.0).min(90.0);
+            let mut all_burnt = true;
+            for w in 0..threads {
+                if done[w] {
+                    continue;
+                }
+                let c = slots[w].0.load(Ordering::SeqCst);
+                let burnt = match (cpu_seen[w], thread_cpu_secs(tids[w].load(Ordering::SeqCst))) {
+                    ((ci, Some(c0)), Some(c1)) if ci == c => c1 - c0 >= need,
+                    _ => true, // CPU time not readable: nothing to wait for
+                };
+                if !burnt {
+                    all_burnt = false;
+                }
+            }
+            let longest = (0..threads).filter(|w| !done[*w]).map(|w| now.saturating_sub(slots[w].1.load(Ordering::SeqCst))).max().unwrap_or(0);
+            if !all_burnt && longest < 5 * watchdog.as_millis() as u64 {
+                continue;
+            }
             for w in 0..threads {
                 if done[w] {
                     continue;
@@ -448,7 +469,7 @@ pub fn finalize(ctx: &Ctx, meta: &CheckMeta, mut rep: Report, stuck: Vec<StuckCa
         // burnt at least half the watchdog period of CPU time inside this one case (about 1e11
         // instructions on inputs of a few hundred numbers) without returning and without calling
         // back. A loaded or suspended machine leaves the CPU figure low: that stays inconclusive.
-        let burnt = matches!(s.cpu_secs, Some(c) if c >= 0.5 * s.secs.min(90.0));
+        let burnt = matches!(s.cpu_secs, Some(c) if c >= 45.0);
         if meta.stuck_is_violation && !s.ticks_moved && burnt {
             rep.cur_stage = s.stage.clone();
             rep.cur_index = s.index;
